@@ -88,6 +88,7 @@ func runC03(w *World, r *Report, tier string) {
 	for _, n := range []string{"integrate.HorizontalZoomMinMax", "integrate.HorizontalZoom", "integrate.VerticalZoom"} {
 		ruleNoClamp(w, r, n)
 	}
+	ruleCacheKey(w, r, cl)
 	guardRows(w, r, "C03")
 }
 
@@ -107,6 +108,8 @@ func runC04(w *World, r *Report, tier string) {
 	}
 	ruleWrapper(w, r, wrapperSpec{Wrapper: "integrate.MergeSpatialIds", Extended: "integrate.MergeExtendedSpatialIds", ZoomArg: 1, ExtH: 1, ExtV: 2, IDsArg: 0})
 	ruleEligibility(w, r)
+	ruleNoSkip(w, r, "integrate.MergeExtendedSpatialIds")
+	ruleCacheKey(w, r, cl)
 	guardRows(w, r, "C04")
 }
 
